@@ -352,13 +352,13 @@ class WSStream:
             await self.send(Data(stream_id=self.stream_id, data=data))
 
     async def _accept(self, message: WebsocketAcceptEvent) -> None:
-        self.state = ASGIWebsocketState.CONNECTED
         status_code, headers, self.connection = self.handshake.accept(
             message.get("subprotocol"), build_and_validate_headers(message.get("headers", []))
         )
         await self.send(
             Response(stream_id=self.stream_id, status_code=status_code, headers=headers)
         )
+        self.state = ASGIWebsocketState.CONNECTED
         await self.config.log.access(
             self.scope, {"status": status_code, "headers": []}, time() - self.start_time
         )
